@@ -18,9 +18,11 @@ func (sc *SpecCtx) kindSig(kind string) *types.Signature {
 			return s
 		}
 	}
-	// Iface.Method or Struct.field
+	// Iface.Method or Struct.field (a trailing [] selects the element type of a slice-of-funcs field)
 	if i := strings.LastIndex(kind, "."); i > 0 {
 		tn, mn := kind[:i], kind[i+1:]
+		elem := strings.HasSuffix(mn, "[]")
+		mn = strings.TrimSuffix(mn, "[]")
 		if obj, ok := e.P.TPkg.Scope().Lookup(tn).(*types.TypeName); ok {
 			switch u := obj.Type().Underlying().(type) {
 			case *types.Interface:
@@ -32,7 +34,11 @@ func (sc *SpecCtx) kindSig(kind string) *types.Signature {
 			case *types.Struct:
 				for j := 0; j < u.NumFields(); j++ {
 					if u.Field(j).Name() == mn {
-						if s, ok := u.Field(j).Type().Underlying().(*types.Signature); ok {
+						ft := u.Field(j).Type()
+						if sl, ok := ft.Underlying().(*types.Slice); ok && elem {
+							ft = sl.Elem()
+						}
+						if s, ok := ft.Underlying().(*types.Signature); ok {
 							return s
 						}
 					}
@@ -72,6 +78,15 @@ func (sc *SpecCtx) call(x *SExpr) Val {
 	case "old":
 		saved := sc.cur
 		sc.cur = sc.old
+		v := sc.eval(args[0])
+		sc.cur = saved
+		return v
+	case "locked": // value of an expression right after the most recent lock acquisition of this call
+		saved := sc.cur
+		sc.cur = st.lockSnap
+		if st.lockSnap == nil {
+			sc.cur = sc.old // no lock taken on this path: the entry value
+		}
 		v := sc.eval(args[0])
 		sc.cur = saved
 		return v
@@ -143,6 +158,9 @@ func (sc *SpecCtx) call(x *SExpr) Val {
 	case "metric": // metric(name): accumulated value of Stat.Add for that name
 		n := sc.eval(args[0])
 		return mkReal(sel(sc.arr("G|metric", "(Array Int Real)"), n.C[0]))
+	case "clockReads": // clock readings made by this function so far
+		e.ghostInit["G|nclk"] = "(>= $ 0)"
+		return Val{T: tInt, C: []string{fmt.Sprintf("(- %s %s)", sc.arr("G|nclk", "Int"), st.arrIn(sc.old, "G|nclk", "Int"))}}
 	case "clockN":
 		return Val{T: tInt, C: []string{sc.arr("G|nclk", "Int")}}
 	case "now": // now(j): j-th clock reading made by this function (1-based)
